@@ -186,7 +186,7 @@ def random_inputs(seed, n):
 # judging (TLC) and violation records
 # ---------------------------------------------------------------------------------------------
 def judge(files, workdir):
-  failures, n, wall = fnspec.judge(TRACE, files, workdir, xmx="2g")
+  failures, n, wall = fnspec.judge(TRACE, files, workdir, xmx="1g")
   viol, seen = [], set()
   for f in failures:
     for clause in f["c"]:
@@ -247,7 +247,7 @@ def run(ctx):
                              % (model["distinct"], len(inputs), n_t))
   ctx.log("TLC enumerated %d inputs = %d tables x %d requests x %d option sets (%.1fs)"
           % (len(inputs), n_t, n_q, n_o, model["wall"]))
-  extra = random_inputs(ctx.seed, 6000 if ctx.quick else 80000)
+  extra = random_inputs(ctx.seed, 4000 if ctx.quick else 40000)
   todo = inputs + extra
   t0 = time.time()
   files = fnspec.run_cases(WORKER, todo, ctx.workdir, nshards=16 if ctx.quick else 64)
